@@ -32,6 +32,10 @@ Fixpoint faults_of (l : list sx) : faults :=
     | _ :: r => faults_of r s k
     end.
 
+Definition sx_of_site (x : site) : sx :=
+  A (match x with
+     | SetupMkdir => $"setup_mkdir" | SetupOpen => $"setup_open" | Emit => $"emit" | Expand => $"expand"
+     | CfgMkdir => $"cfg_mkdir" | DecOpen => $"dec_open" | DecWrite => $"dec_write" end).
 Definition mode_of_sx (x : sx) : mode := if is x "gemini" then Gemini else if is x "cursor" then Cursor else Claude.
 Definition sx_of_mode (m : mode) : sx := A (match m with Claude => $"claude" | Gemini => $"gemini" | Cursor => $"cursor" end).
 Definition cfg_ev_of (x : sx) : cfg_ev :=
@@ -71,14 +75,15 @@ Definition sx_of_outv (o : outv) : sx :=
   end.
 Definition sx_of_result (r : result) : sx :=
   L [L (map sx_of_outv (r_stdout r)); sx_of_nat (r_exit r); sx_of_strs (r_declog r);
-     L (map sx_of_level (r_applog r)); L (map sx_of_level (r_stderr r)); sx_of_nat (r_tracebacks r)].
+     L (map sx_of_level (r_applog r)); L (map sx_of_level (r_stderr r)); sx_of_nat (r_tracebacks r);
+     L (map sx_of_site (r_ops r))].
 
 Definition pair_of (x : sx) : str * str := (sx_str (sx_nth 0 x), sx_str (sx_nth 1 x)).
 
 Definition entry (orc : oracle) (cmd : str) (args : list sx) : option sx :=
   let a := arg args in
   if is_cmd cmd "hook_run" then
-    let C := if is (a 0%nat) "legacy" then legacy else head in
+    let C := if is (a 0%nat) "legacy" then legacy else if is (a 0%nat) "quiet" then quiet else if is (a 0%nat) "current" then current else head in
     Some (sx_of_result (hook_run C (faults_of (sx_list (a 1%nat))) (sx_str (a 2%nat)) (hin_of (a 3%nat))))
   else if is_cmd cmd "hook_nolog" then Some (sx_of_result (run_nolog (hin_of (a 0%nat))))
   else if is_cmd cmd "json_line" then Some (A (jline (map pair_of (sx_list (a 0%nat)))))
